@@ -195,7 +195,8 @@ type c04External struct {
 		Key     string         `json:"key"`
 		Witness map[string]any `json:"witness"`
 	} `json:"findings"`
-	Note string `json:"note"`
+	Blocked int    `json:"schedules_abandoned_blocked"`
+	Note    string `json:"note"`
 }
 
 func c04RunExternal(r *core.Rec, envVar string, args ...string) *c04External {
@@ -843,7 +844,10 @@ func init() {
 					r.State(fmt.Sprintf("schedules|%s|bound=%d|exhaustive=%v", res.Scenario, res.Bound, res.Exhaustive))
 					r.Outcome(fmt.Sprintf("%s|observation-vectors=%d", res.Scenario, res.Outcomes))
 					r.NontrivialByConstruction(res.Executions)
-					r.Sample(core.W{"scenario": res.Scenario, "schedules": res.Executions, "points_per_thread": res.Points, "preemption_bound": res.Bound, "distinct_sites": res.Sites, "distinct_observation_vectors": res.Outcomes, "note": res.Note})
+					r.Sample(core.W{"scenario": res.Scenario, "schedules": res.Executions, "points_per_thread": res.Points, "preemption_bound": res.Bound, "distinct_sites": res.Sites, "distinct_observation_vectors": res.Outcomes, "schedules_abandoned_because_a_thread_waited_on_a_lock": res.Blocked, "note": res.Note})
+					if res.Blocked > 0 {
+						fmt.Fprintf(os.Stderr, "NOTE: %s: %d schedule(s) abandoned because a thread waited on synchronisation outside the scheduler (a lock held by a parked thread); such schedules are not feasible at this granularity\n", res.Scenario, res.Blocked)
+					}
 					if !res.Exhaustive {
 						r.CapHit("schedule exploration of " + res.Scenario + " stopped at its cap: " + res.Note)
 					}
